@@ -73,7 +73,7 @@ fn setup_view(case: &Value, by_timer: bool) -> ViewUnderTest {
     } else {
         None
     };
-    let inner = InnerNodeManage::verif_new_with_nodes(local, nodes, naming.clone(), by_timer);
+    let inner = InnerNodeManage::verif_new_with_nodes(local, nodes, naming.clone(), by_timer, false);
     let direct = inner.verif_get_current_process_range();
     let stored = inner.verif_current_range();
     let addr = inner.start();
